@@ -32,7 +32,7 @@ PROJ = ["SIN", "TAN", "ZEA"]
 
 def axes(tier, seed):
     return dict(shapes=SHAPES if tier == "quick" else SHAPES_T, projections=PROJ if tier == "quick" else PROJ_T, crpix=["centre", "off-image"], scale_deg=[0.2, 1.0],
-                regions=["circle", "polygon", "multilevel"], depth={"1.0": [6, 9], "0.2": [8, 10]}, negate=[False, True],
+                regions=["circle", "polygon", "multilevel", "spread (three far-apart parts)"], depth={"1.0": [6, 9], "0.2": [6, 8, 10]}, negate=[False, True],
                 dims=["plane", "file2d", "file3d", "file4d", "file2d float64", "file3d float64"],
                 table_rows=["inside", "outside", "edge", "undef_ra", "undef_dec"], columns=[("ra", "dec"), ("RAJ2000", "DEJ2000")])
 
@@ -44,11 +44,15 @@ PROJ_T = PROJ + ["ARC", "STG"]
 def cases(tier, seed):
     shapes = SHAPES if tier == "quick" else SHAPES_T
     projs = PROJ if tier == "quick" else PROJ_T
-    for sh, pj, cp, sc, rk in itertools.product(range(len(shapes)), projs, ["centre", "off"], [0.2, 1.0], ["circle", "polygon", "multilevel"]):
-        for depth in (([6, 9] if sc == 1.0 else [8, 10]) if tier == "quick" else ([5, 6, 7, 9] if sc == 1.0 else [7, 8, 10, 11])):
+    for sh, pj, cp, sc, rk in itertools.product(range(len(shapes)), projs, ["centre", "off"], [0.2, 1.0], ["circle", "polygon", "multilevel", "spread"]):
+        # depth 6 at 0.2 deg pixels: about twenty image pixels share one cell of the region (coarser than the pixel grid)
+        for depth in (([6, 9] if sc == 1.0 else [6, 8, 10]) if tier == "quick" else ([5, 6, 7, 9] if sc == 1.0 else [5, 6, 7, 8, 10, 11])):
             yield "image", dict(shape=sh, proj=pj, crpix=cp, scale=sc, region=rk, depth=depth)
     for m in range(32):
         yield "table", dict(rows=m)
+        if m:
+            yield "table", dict(rows=m, dup=2)
+            yield "table", dict(rows=m, dup=3)
     for k in range(4):
         yield "cli", dict(k=k)
 
@@ -63,6 +67,11 @@ def make_region(kind, depth, hdr, shape, seed):
     rad = cd * min(rows, cols) * 0.45
     if kind == "circle":
         reg.add_circles(np.radians(ra0), np.radians(dec0), np.radians(rad))
+    elif kind == "spread":
+        # a footprint in several far-apart parts: the region's pixel numbers are spread over the whole sphere
+        reg.add_circles(np.radians(ra0), np.radians(dec0), np.radians(rad))
+        reg.add_circles(np.radians((ra0 + 180.0) % 360), np.radians(-dec0), np.radians(rad))
+        reg.add_circles(np.radians((ra0 + 90.0) % 360), np.radians(60.0), np.radians(rad * 0.5))
     elif kind == "polygon":
         from mc.oracles import sphere
         vra, vdec = sphere.destination(ra0, dec0, rad * 1.3, np.array([20.0, 110.0, 200.0, 290.0]))
@@ -204,10 +213,15 @@ def ev_table(case, ctx):
     reg = Region(maxdepth=depth)
     ra0, dec0, rad = 40.0 + core.seed_shift(ctx.seed, 12, 5), -20.0, 3.0
     reg.add_circles(np.radians(ra0), np.radians(dec0), np.radians(rad))
+    # a second, far-away part: the region's pixel numbers are spread over the sphere (a survey footprint made of several fields)
+    reg.add_circles(np.radians((ra0 + 170.0) % 360), np.radians(55.0), np.radians(2.0))
     coords = dict(inside=(ra0, dec0), outside=(ra0 + 20, dec0 + 10), edge=(ra0, dec0 + rad - 0.5),
                   undef_ra=(np.nan, dec0), undef_dec=(ra0, np.nan))
     expect_inside = dict(inside=True, outside=False, edge=True, undef_ra=False, undef_dec=False)
     names = [ROWS[k] for k in range(5) if (m >> k) & 1]
+    if case.get("dup"):
+        # duplicate rows (several sources at one position / in one cell of the region): each row is judged on its own
+        names = [n for n in names for _ in range(case["dup"])]
     d = os.environ["VERIF_SCRATCH"]
     fmim = os.path.join(d, "t.mim")
     reg.save(fmim)
@@ -267,7 +281,7 @@ def ev_table(case, ctx):
         ctx.outcome("table_kept=%d" % len(got))
         if got != keep_exp:
             ctx.violation("mask_table kept %r, expected %r (%s)" % (got, keep_exp, sig), "table_rows|" + sig)
-        elif vals != [1.5 * names.index(n) for n in keep_exp]:
+        elif vals != [1.5 * k_ for k_, n in enumerate(names) if n in keep_exp]:
             ctx.violation("mask_table changed another column (%s)" % sig, "table_cols|" + sig)
         # through files
         if rac == "ra" and names and not distract:
